@@ -4,6 +4,7 @@ import WfProofs.EngineRerun
 import WfProofs.RunnerRetryDelay
 import WfProofs.PolicyChainIndex
 import WfModel.GenEngineShape
+import WfModel.GenRetryDelayShape
 /-!
 # C06 — retry delays follow the wait strategy in documented order
 
@@ -359,3 +360,28 @@ example : waitChain [waitFixed 3, waitFixed 1, waitFixed 2] 1 0 = waitChain [wai
 example : C06.engineDelay { retry := none, wait := waitChain [waitFixed 3, waitFixed 1], stop := stopAfterAttempt ((5 : Nat) : Rat) } 1 0 0 0
     ≠ some (waitChain [waitFixed 3, waitFixed 1] (1 - 1) 0) :=
   C06_refuted_for_every_such_chain 3 1 [] 5 (by omega) (by decide) 0 0 0
+
+/-! ## the source of the delay path agrees in shape (re-read on every run, `harness/gen/retry_delay_shape.py`) -/
+
+/-- the expressions the whole-run theorem rests on, as they stand in the current source: the retry command carries the
+failure record (`attempts + 1`, first attempt, exception, `failed_at`) and the policy's delay; `process_command` copies the
+record into the `TickAddEvent`, parks it for `get_now() + delay` exactly when `delay > 0` and buffers it otherwise;
+`pop_due_ticks` releases a parked tick only when its time is `<= now`; every `StepWorkerFailed` takes its `failed_at`
+from a clock reading (the epoch clock the adapter contract prescribes for `get_now()`), never from a computed value -/
+theorem C06_delay_source_shape :
+    GenRetryDelayShape.retryDelayGuard = "delay is not None" ∧
+    GenRetryDelayShape.retryCommandRecord =
+      "event=tick.event, delay=delay, step_name=tick.step_name, attempts=this_execution.attempts + 1, first_attempt_at=this_execution.first_attempt_at, last_exception=result.exception, last_failed_at=result.failed_at, recovery_counts=dict(this_execution.recovery_counts)" ∧
+    GenRetryDelayShape.retryElapsed = "result.failed_at - this_execution.first_attempt_at" ∧
+    GenRetryDelayShape.queueTickRecord =
+      "event=command.event, step_name=command.step_name, attempts=command.attempts, first_attempt_at=command.first_attempt_at, last_exception=command.last_exception, last_failed_at=command.last_failed_at, recovery_counts=dict(command.recovery_counts)" ∧
+    GenRetryDelayShape.queueDelayTest = "command.delay is not None and command.delay > 0" ∧
+    GenRetryDelayShape.queueDelayedBody = "now = await self.adapter.get_now() ; self.schedule_tick(event, at_time=now + command.delay)" ∧
+    GenRetryDelayShape.queueUndelayedBody = "self.tick_buffer.append(event)" ∧
+    GenRetryDelayShape.scheduleTickPush = "heapq.heappush(self.scheduled_wakeups, (at_time, seq, tick))" ∧
+    GenRetryDelayShape.popDueTest = "self.scheduled_wakeups and self.scheduled_wakeups[0][0] <= now" ∧
+    GenRetryDelayShape.failedAtSources = ["await self.adapter.get_now()@control_loop.py", "time.time()@types/step_function.py"] ∧
+    GenEngineShape.wakeupMutators = ["heapq.heappop@pop_due_ticks", "heapq.heappush@schedule_tick"] ∧
+    Gen.RP.loopFailures = "this_execution.attempts + 1" ∧ Gen.RP.loopNextArgs = "elapsed_time, failures, result.exception" :=
+  ⟨rfl, rfl, rfl, rfl, rfl, rfl, rfl, rfl, rfl, rfl, rfl, rfl, rfl⟩
+example : GenRetryDelayShape.failedAtSources.length = 2 := by decide
